@@ -17,7 +17,7 @@ from ..model import Model
 from ..report import Run
 from ..values import (ELL, Const, DictV, Inst, ListV, Sym, Term, TupleV, V, is_ell)
 from ..visits import (Config, configs_for, list_shapes, run_visit, substitutor_ctx, validator_ctx)
-from ..vtable import Row, canonical, comparison_operands, dedupe, extract, relation
+from ..vtable import lossy_image, surplus_reported, Row, canonical, comparison_operands, dedupe, extract, relation
 
 TYPE = {"visit_none": "NoneType", "visit_bool": "bool", "visit_int": "int", "visit_float": "float", "visit_str": "str",
         "visit_list": "list", "visit_dict": "dict", "visit_bytes": "bytes", "visit_datetime": "datetime",
@@ -144,6 +144,27 @@ def check(run: Run, prog: Program, model: Model, tier: str) -> None:
                         if err is None:
                             continue
                         c = f"{vis}.{hook} {cfg.label}: {prop}"
+                        if err in have and prop in REL and prop != "value":
+                            # ... and still the specified relation of the value itself (a fixed float is compared at
+                            # the declared precision by design: CONSTRAINT handles `value`)
+                            _, xk, want = REL[prop]
+                            mine = [r for r in dedupe(rows) if r.error == err and r.term is not None]
+                            lossy = [(r, h) for r in mine if isinstance(r.term, Term) for a_ in r.term.args if isinstance(a_, V)
+                                     for h in [lossy_image(a_, "value")] if h]
+                            rels = [relation(r.term, bool(r.polarity), xk, f"props.{prop}") for r in mine]
+                            if lossy:
+                                r0, h0 = lossy[0]
+                                run.violated("PRESENT", c, r0.site,
+                                             f"in this combination `{prop}` is checked on {h0} of the value ({r0.pred_key[:70]}), not on the value",
+                                             witness=f"a value on the wrong side of `{prop}` by less than the rounding step is accepted, one on the right side rejected")
+                                continue
+                            if rels and all(x is not None for x in rels):
+                                got = set().union(*rels)        # type: ignore[arg-type]
+                                if got != set(want):
+                                    run.violated("PRESENT", c, mine[0].site,
+                                                 f"in this combination {err} is raised when ({xk} ? props.{prop}) in {sorted(got)}, specified {sorted(want)}",
+                                                 witness=f"schema with {cfg.label}: the `{prop}` boundary moves")
+                                    continue
                         if err in have:
                             run.holds("PRESENT", c, f.loc, f"{err} still reachable in this combination", nontrivial=True)
                         else:
@@ -363,16 +384,14 @@ def _list_forms(run: Run, prog: Program, model: Model, tier: str) -> None:
         if v and not (starts <= want_start and (form != "contains" or "<window index>" in starts)):
             probs.append(f"{form} form validates its members starting at {sorted(starts)}, specified {sorted(want_start)}")
         if form == "exact":
-            # surplus elements must be reported
-            rows, _ = extract(prog, model, "Validator", "visit_list", cfg, 1)
-            ex = [r for r in rows if r.error == "ExtraElementValidationError"]
-            okx = any(r.term is not None and relation(r.term, bool(r.polarity), "len(value)", str(n)) == frozenset({"GT"}) or
-                      (r.term is not None and any(isinstance(t, Term) and relation(t, b, "len(value)", str(n)) == frozenset({"GT"})
-                                                  for _, t, b in r.all_facts)) for r in ex)
-            if not ex:
-                probs.append("surplus elements of an exact list are never reported")
-            elif not okx:
-                probs.append("surplus elements are not reported exactly when len(value) > number of declared elements")
+            # surplus elements must be reported - also when length props are carried next to the elements (that is what a
+            # substituted list looks like)
+            for ln in ((), ("max_len",), ("min_len", "max_len")):
+                cfg_l = Config(("elements",) + ln, {"elements": mk}, label=f"elements={name}" + "".join("," + x for x in ln))
+                rows, _ = extract(prog, model, "Validator", "visit_list", cfg_l, 1)
+                okx, why = surplus_reported(rows, n)
+                if not okx:
+                    probs.append(why + (f" (with {', '.join(ln)} declared)" if ln else ""))
         else:
             rows, _ = extract(prog, model, "Validator", "visit_list", cfg, 1)
             if any(r.error == "ExtraElementValidationError" for r in rows):
